@@ -1,6 +1,7 @@
 import random
 from typing import Any, List, Optional, Tuple, TypeVar
 
+from scapy.layers.inet import IPOption_NOP
 from scapy.packet import NoPayload, Raw
 
 from pyp0f.database import Database
@@ -65,7 +66,7 @@ def _impersonate_ip(ip: T, signature: TCPSignature, extra_hops: int = 0) -> T:
         id=identification,
         ttl=signature.ttl - extra_hops,
         tos=random.randrange(0x01, 0x04) if Quirk.ECN in signature.quirks else 0x0,
-        options=[],  # FIXME: Non-zero IPv4 options not handled -> signature.ip_options_length != 0
+        options=[IPOption_NOP()] * signature.ip_options_length,
     )
 
 
@@ -187,6 +188,10 @@ def _impersonate_options(
             # SACK option is 10 to 34 bytes long, kind and length bytes included
             impersonated_option = ("SAck", b"\x00" * 8)
 
+        else:
+            # Option kind unknown to p0f ("?n"): kind and length bytes only
+            impersonated_option = (int(option), b"")
+
         if impersonated_option is not None:
             options.append(impersonated_option)
 
@@ -210,7 +215,7 @@ def _option_length(option: Tuple[Any, Any]) -> int:
 def _align_options(options: List[Tuple[Any, Any]]) -> List[Tuple[Any, Any]]:
     """
     TCP options always fill a multiple of 4 bytes. Stretch a variable-length
-    option (SACK) if there is one, so that no padding (which p0f would
+    option (SACK, unknown kinds) if there is one, so that no padding (which p0f would
     report as an extra EOL option) has to be appended.
     """
     missing = -sum(_option_length(option) for option in options) % 4
@@ -219,7 +224,7 @@ def _align_options(options: List[Tuple[Any, Any]]) -> List[Tuple[Any, Any]]:
         if not missing:
             break
 
-        if name == "SAck":
+        if name == "SAck" or isinstance(name, int):
             options[i] = (name, value + b"\x00" * missing)
             missing = 0
 
